@@ -44,20 +44,24 @@ func sub(v reflect.Value, i int) reflect.Value {
 }
 
 func (k *comparer) cmpStruct(st *stype, pre, exp, got reflect.Value, c *cval, pc polCtx, where, path string) {
+	at := ""
+	if where == "array-elem" {
+		at = "@" + where
+	}
 	for _, f := range st.fields {
 		p := path + "." + f.goName
 		fpre, fexp, fgot := sub(pre, f.idx), exp.Field(f.idx), got.Field(f.idx)
 		switch {
 		case f.unexported:
 			if !equal(fexp, fgot, true) {
-				k.violate("unexported-field-changed", p, fexp, fgot, "")
+				k.violate("unexported-field-changed"+at, p, fexp, fgot, "")
 			}
 			continue
 		case f.ignore:
 			if !equal(fexp, fgot, true) {
-				k.violate("ignored-field-changed", p, fexp, fgot, "")
+				k.violate("ignored-field-changed"+at, p, fexp, fgot, "")
 			} else if isRef(fgot) && !k.sameRef(fpre, fgot) {
-				k.violate("ignored-field-changed", p, fexp, fgot, " (equal contents, another pointer/map)")
+				k.violate("ignored-field-changed"+at, p, fexp, fgot, " (equal contents, another pointer/map)")
 			}
 			continue
 		}
@@ -101,6 +105,9 @@ func (k *comparer) cmpField(f *field, pre, exp, got reflect.Value, cv *cval, pc 
 		if f.inline {
 			w = "inline"
 		}
+		if where == "array-elem" {
+			w = where
+		}
 		k.cmpStruct(f.sub, pre, exp, got, cv, pc.below(), w, path)
 	case kPtrStruct:
 		switch {
@@ -119,8 +126,6 @@ func (k *comparer) cmpField(f *field, pre, exp, got reflect.Value, cv *cval, pc 
 		case absent && !equal(exp, got, true):
 			k.violate(unm, path, exp, got, "")
 		case absent:
-		case k.unmodelled[f]:
-			k.res.Ev("struct_list_under_replace_not_compared", 1)
 		case !equal(exp, got, false):
 			base := pre
 			if !base.IsValid() {
@@ -141,6 +146,15 @@ func (k *comparer) cmpField(f *field, pre, exp, got reflect.Value, cv *cval, pc 
 					f.kind == kSliceStruct && replaces(over) && got.Len() == len(cv.list) && got.Len() < exp.Len() {
 					sig = "merge-tag-overridden-by-outer-policy:" + pc.src + ":" + pc.over
 				}
+			}
+			if f.kind == kSliceStruct && replaces(pc) && def.Len() >= len(cv.list) && equal(def.Slice(0, len(cv.list)), got, false) {
+				// the list was replaced, but its elements are the old elements at
+				// the same positions with the settings merged into them
+				src := pc.src
+				if src == "global" {
+					src = "global-" + site
+				}
+				sig = "replaced-struct-list-element-inherits-old-fields:" + src + ":" + pc.pol
 			}
 			k.violate(sig, path, exp, got, fmt.Sprintf(" (pre-filled %s, setting %s, policy %s from %s; index-wise merge would give %s)",
 				render(base), renderGo(cv.toGo()), pc.pol, pc.src, render(def)))
@@ -178,6 +192,20 @@ func (k *comparer) cmpField(f *field, pre, exp, got reflect.Value, cv *cval, pc 
 			}
 			k.violate("config-field-merge-wrong:"+pc.src+":"+pc.pol+":result-of-"+as, path, exp, got,
 				fmt.Sprintf(" (held %s, setting %s, policy %s from %s; want %s)", preTree, renderGo(cv.toGo()), pc.pol, pc.src, want.CanonTop()))
+		}
+	case kArrayComp:
+		if absent {
+			if !equal(exp, got, true) {
+				k.violate(unm, path, exp, got, "")
+			}
+			return
+		}
+		for i := 0; i < exp.Len() && i < len(cv.list); i++ {
+			var epre reflect.Value
+			if pre.IsValid() {
+				epre = pre.Index(i)
+			}
+			k.cmpField(f.elem, epre, exp.Index(i), got.Index(i), cv.list[i], pc, "array-elem", path+"["+strconv.Itoa(i)+"]")
 		}
 	case kArrayPrim:
 		if !equal(exp, got, true) {
